@@ -319,6 +319,28 @@ func AnchorInterop() error {
 		}
 		n.Shutdown()
 	}
+	// Seed search: the IV the search predicts is the IV the key schedule derives.
+	for i := 0; i < 4; i++ {
+		initiator, dirInit := i&1 == 1, i&2 == 2
+		peer := filler(uint64(80+i), SeedLen)
+		seed, dist, _, ok := SearchSeed(initiator, peer, dirInit, 16, 64, uint64(i), 1<<20)
+		if !ok {
+			return fmt.Errorf("seed search %d found nothing", i)
+		}
+		var k *Keys
+		if initiator {
+			k = DeriveKeys(seed, peer)
+		} else {
+			k = DeriveKeys(peer, seed)
+		}
+		iv := k.RespIV
+		if dirInit {
+			iv = k.InitIV
+		}
+		if CarryDistance(iv, 16) != dist || dist < 1 || dist > 64 || !CarryCrossed(iv, 16, int(16*dist)+1) || CarryCrossed(iv, 16, int(16*dist)) {
+			return fmt.Errorf("seed search %d: predicted carry distance %d, key schedule says %d (iv %x)", i, dist, CarryDistance(iv, 16), iv)
+		}
+	}
 	// Damaged handshakes.
 	bad := []struct {
 		p    Params
@@ -365,4 +387,71 @@ var (
 func Anchor() error {
 	anchorOnce.Do(func() { anchorErr = AnchorInterop() })
 	return anchorErr
+}
+
+// ---- counter arithmetic of the session streams ----------------------------------------
+//
+// AES-CTR as used by obfs2 increments the whole 128-bit IV as a big-endian
+// integer.  The helpers below let the harness steer sessions across the points
+// where a carry leaves the low 8 / 16 / 24 / 32 bits of the counter, which an
+// implementation with a narrower counter gets wrong.
+
+func ivLow32(iv []byte) uint32 { return binary.BigEndian.Uint32(iv[len(iv)-4:]) }
+
+// CarryDistance is the index (>= 1) of the first keystream block whose counter
+// has its low `bits` bits equal to zero again, i.e. the block that needs a
+// carry out of those bits.
+func CarryDistance(iv []byte, bits uint) uint64 {
+	low := uint64(ivLow32(iv))
+	if bits < 32 {
+		low &= 1<<bits - 1
+	}
+	return 1<<bits - low
+}
+
+// CarryCrossed reports whether n bytes of a stream that starts at iv use at
+// least one block beyond a carry out of the low `bits` bits.
+func CarryCrossed(iv []byte, bits uint, n int) bool {
+	return uint64(n) > 16*CarryDistance(iv, bits)
+}
+
+// SearchSeed looks for a seed for the party described by `initiator` such
+// that, combined with the peer's (already known) seed, the IV of the session
+// stream written by the initiator (dirInit) or by the responder wraps its low
+// `bits` bits within `window` blocks.  Candidate seeds are 8 bytes derived from
+// base followed by a 64-bit counter, tried in order, so the result is a pure
+// function of the arguments (replays find the same seed).
+func SearchSeed(initiator bool, peerSeed []byte, dirInit bool, bits uint, window uint64, base uint64, maxTries int) (seed []byte, dist uint64, tries int, ok bool) {
+	label := respDataLabel
+	if dirInit {
+		label = initDataLabel
+	}
+	buf := make([]byte, 0, 2*len(label)+2*SeedLen)
+	buf = append(buf, label...)
+	off := len(buf)
+	if initiator {
+		off = len(buf)
+		buf = append(buf, make([]byte, SeedLen)...)
+		buf = append(buf, peerSeed...)
+	} else {
+		buf = append(buf, peerSeed...)
+		off = len(buf)
+		buf = append(buf, make([]byte, SeedLen)...)
+	}
+	buf = append(buf, label...)
+	copy(buf[off:off+8], filler(base^0x5eed, 8))
+	mask := uint32(0xffffffff)
+	if bits < 32 {
+		mask = 1<<bits - 1
+	}
+	for i := 0; i < maxTries; i++ {
+		binary.BigEndian.PutUint64(buf[off+8:off+16], uint64(i))
+		d := sha256.Sum256(buf)
+		low := binary.BigEndian.Uint32(d[28:32]) & mask
+		dd := uint64(mask) + 1 - uint64(low)
+		if dd <= window {
+			return append([]byte(nil), buf[off:off+SeedLen]...), dd, i + 1, true
+		}
+	}
+	return nil, 0, maxTries, false
 }
